@@ -24,6 +24,7 @@ pub fn same_bytes(a: &[u8], b: &[u8]) -> bool {
 }
 
 /// Fixed-capacity byte buffer used by reference implementations (arrays only, no heap).
+#[derive(Clone, Copy)]
 pub struct Buf<const N: usize> {
     pub b: [u8; N],
     pub n: usize,
